@@ -1107,8 +1107,8 @@ func RefCSKeys(keys map[string]*rsa.PrivateKey, tolSec int64, header string, has
 	if err != nil {
 		return CSVerdict{Why: "time in secret not a number"}
 	}
-	if d := now - sec; d > tolSec || -d > tolSec {
-		return CSVerdict{Why: fmt.Sprintf("timestamp %d s away from now, tolerance %d s", d, tolSec)}
+	if sec < now-tolSec || sec > now+tolSec { // (no subtraction of sec: it may be any int64)
+		return CSVerdict{Why: fmt.Sprintf("timestamp %d, now %d, tolerance %d s", sec, now, tolSec)}
 	}
 	want := csSign(key, sigString(ts, method, path, query, body))
 	if sig != want {
@@ -1333,6 +1333,12 @@ func genCSReqLogical(t *rapid.T, st *verifkit.Stats, env *Env, conf CSConf, now 
 		}
 	}
 	p.ts = strconv.FormatInt(now+off, 10)
+	if !timeValid && rapid.IntRange(0, 2).Draw(t, "tsExtreme") == 0 {
+		// an extreme of the legal range of the field (any int64): centuries away, where durations overflow
+		p.ts = rapid.SampledFrom([]string{"0", "-1", "99999999999", "11000000000", "1000000000000000", "9223372036854775807",
+			"9223372036854775806", "-9223372036854775808", "-9223372036854775807", "9223372030000000000", "-62135596801", "253402300800"}).Draw(t, "tsAbs")
+		timeDesc = "outside-extreme(" + p.ts + ")"
+	}
 	p.rsa, p.fp = env.A, conf.FpA
 	rsaName := "A"
 	if rapid.IntRange(0, 3).Draw(t, "rsaKey") == 0 {
